@@ -18,10 +18,10 @@ from vmon.props import c11
 
 LEVEL = "exploration"
 SHARDS = {"quick": 16, "thorough": 16}
-MUST = ["write.twice", "write.after_other_writes", "history.variant_headers", "cycle.g2g3", "namespace.checked", "crossprocess.documents", "immutability.snapshots", "route.xml", "route.objects",
+MUST = ["write.twice", "write.after_parsing_packets", "write.after_other_writes", "history.variant_headers", "cycle.g2g3", "namespace.checked", "crossprocess.documents", "immutability.snapshots", "route.xml", "route.objects",
         "style.prefix", "style.default", "style.none"]
 RULE = ("case = generated definition (both build routes; namespace conventions prefix xtce / custom prefix / default "
-        "namespace / none) with a fixed header date: written twice in-process and again after other definitions (with / without a SpaceSystem name, other header "
+        "namespace / none) with a fixed header date: written twice in-process, again after it decoded packets, and again after other definitions (with / without a SpaceSystem name, other header "
         "values, other namespace styles) were written in between, written in two further processes with "
         "PYTHONHASHSEED 1 and 4242, cycled write->load->write->load->write; checks: byte identity, G2==G3, "
         "well-formedness + namespace of every element, no write to the definition during serialization. "
@@ -107,6 +107,22 @@ def run(ctx):
             pool.append((f"{i}/{route}", D, G1))
             if w2.exc is not None or w2.value != G1:
                 ctx.violation(f"{route}/nondeterministic/same-process", "writing the same definition twice gave different bytes", wit)
+            # ... also when the definition has been USED in between: decode a few packets (steered into its containers, so that
+            # restriction criteria, context matches and lookups are evaluated), then write again
+            if i % 2 == 0:
+                from vmon import harness
+                prng = random.Random(f"C15/{ctx.seed}/packets/{i}")
+                used = 0
+                for raw in gen.gen_packets(prng, doc, 6):
+                    st_, _ = harness.parse_single(D, raw)
+                    used += 1
+                w3 = monitored(definition_to_bytes, D)
+                ctx.count("write.after_parsing")
+                ctx.count("write.after_parsing_packets", used)
+                if w3.exc is not None or w3.value != G1:
+                    ctx.violation(f"{route}/nondeterministic/after-parsing", f"writing the definition again after it decoded {used} packets gives different bytes"
+                                  + (f" ({w3.exc!r})" if w3.exc is not None else ""),
+                                  dict(wit, first_diff=first_diff(G1, w3.value) if w3.exc is None else None))
             # well-formed + namespaces
             try:
                 nss = reader.element_namespaces(G1)
